@@ -58,7 +58,8 @@ DiffProps(d, ev) ==
     [] d[1] = "supply" -> {"C02"}
     [] d[1] = "ent" -> (IF d[2] \in {"po", "rq", "aq", "wl", "next"} THEN {"C03"}
                         ELSE IF d[2] = "p" THEN {"C16"} ELSE {"C04", "C05"})
-    [] d[1] \in {"wrk", "bcn"} -> (IF d[2] = "p" THEN {"C16"} ELSE IF d[2] = "next" THEN {"C09"} ELSE {})
+    \* the registry parameters are what admission prices with ("the current ... fees", C06)
+    [] d[1] \in {"wrk", "bcn"} -> (IF d[2] = "p" THEN {"C16", "C06"} ELSE IF d[2] = "next" THEN {"C09"} ELSE {})
     [] d[1] = "str" -> (IF d[2] = "p" THEN {"C16"} ELSE {"C10", "C11"})
     [] d[1] = "halted" -> {"C14"}
     [] d[1] = "grants" -> {"C13"}
